@@ -9,10 +9,8 @@ CONSTANTS
   Widths = {}
   ChainItems = 3
   Excluded = {"D1", "D1b", "D2", "D2c", "D3", "D5", "D7", "D8", "D9", "D10", "D11"}
-  Emit = TRUE  Bug = ""
+  Emit = FALSE  Bug = "CountersResetPerPass"
 INIT Init
 NEXT Next
-INVARIANT LoaderSound
 INVARIANT Refines
-INVARIANT EmitProg
 CHECK_DEADLOCK FALSE
